@@ -1,6 +1,6 @@
 (* C12 - Printing and parsing are inverse and printing is unambiguous. *)
-From Coq Require Import List Bool String.
-From Y0 Require Import Base.ListSet Dsl.Syntax Dsl.Build Dsl.Print Dsl.Parse Proofs.DslP Proofs.RoundTripBounded.
+From Coq Require Import List Bool String Ascii.
+From Y0 Require Import Base.ListSet Dsl.Syntax Dsl.Tok Dsl.Build Dsl.Print Dsl.Parse Proofs.DslP Proofs.RoundTripBounded Proofs.TokenizeP Proofs.ParseP.
 Import ListNotations.
 Open Scope string_scope.
 
@@ -8,6 +8,31 @@ Open Scope string_scope.
 Definition C12_statement : Prop :=
   forall e, is_err e = false -> simple_div false e = true ->
     parse_y0 (to_y0 e) = e /\ to_y0 (parse_y0 (to_y0 e)) = to_y0 e.
+
+(* PRINTING IS UNAMBIGUOUS, proved for every expression (any size, any nesting):
+   (lexical layer) the tokenizer reads the printed text back as exactly the tokens the printer emitted, for every expression over
+   the harness alphabet [names_ok] - error values included;
+   (syntactic layer) Python's expression grammar - as modelled by the precedence parser of Dsl/Parse.v: "|" lowest, then
+   left-associative * / @, then unary + - ~, then calls and subscripts - reads those tokens as the operator tree [ast_of e] the
+   printer means: factors of a product chained to the left, a fraction as numerator / denominator with a product denominator
+   bracketed, sums, subscripts and argument lists nested as printed. [printable]: no error value inside, every term has a child,
+   products are non-empty and flat. The parser's fuel (4 * tokens + 8) is shown sufficient. What remains bounded (below) is the
+   evaluation layer only: that applying y0's operators along [ast_of e] rebuilds e. *)
+Theorem C12_tokenizer_reads_back_the_printed_tokens e :
+  names_ok e = true -> tokenize (to_y0 e) = map snd (toks e).
+Proof. exact (tokenize_to_y0 e). Qed.
+
+Theorem C12_printed_text_parses_to_the_intended_tree e :
+  names_ok e = true -> printable e = true -> parse_ast (to_y0 e) = Some (ast_of e).
+Proof. exact (parse_printed e). Qed.
+
+(* not vacuous: Sum[B](P(A | B) * P(B)) / (P(C) * P(D @ -A)) is printable, and its tree divides the sum by the bracketed product *)
+Example C12_parse_not_vacuous :
+  let e := EFrac (ESum (EProd [EProb None [V 0] [V 1]; EProb None [V 1] []]) [V 1])
+                 (EProd [EProb None [V 2] []; EProb None [mkVar KCf 3 None [(0, false)]] []]) in
+  names_ok e = true /\ printable e = true /\
+  exists s p, ast_of e = ABin "/"%char (ACall s [ABin "*"%char (ACall (AName "P") [ABin "|"%char (AName "A") (AName "B")]) (ACall (AName "P") [AName "B"])]) p.
+Proof. cbv zeta. split; [reflexivity|]. split; [reflexivity|]. eexists. eexists. vm_compute. reflexivity. Qed.
 
 Theorem C12_product_denominator_is_bracketed n ds :
   to_y0 (EFrac n (EProd ds)) = "((" ++ to_y0 n ++ " / " ++ ("(" ++ to_y0 (EProd ds) ++ ")") ++ "))".
@@ -24,6 +49,8 @@ Theorem C12_round_trip_partial_bounded :
     (simple_div false e = true -> parse_y0 (to_y0 e) = e /\ to_y0 (parse_y0 (to_y0 e)) = to_y0 e).
 Proof. exact round_trip_bounded. Qed.
 
+Print Assumptions C12_tokenizer_reads_back_the_printed_tokens.
+Print Assumptions C12_printed_text_parses_to_the_intended_tree.
 Print Assumptions C12_product_denominator_is_bracketed.
 Print Assumptions C12_old_printer_refuted.
 Print Assumptions C12_round_trip_partial_bounded.
